@@ -283,6 +283,23 @@ fn main() {
                 }
             }
         }
+        // remove_obsolete vs_curr_wal vs_prev_wal|none field_curr_wal live in_use bad(0|1) dir:kind:number ...
+        "remove_obsolete" => {
+            let prev = if a[2] == "none" { None } else { Some(num(a[2])) };
+            let mut files: Vec<(String, u64)> = vec![];
+            for t in &a[7..] {
+                let p: Vec<&str> = t.split(':').collect();
+                let ok = matches!((p[0], p[1]), ("wal", "WriteAheadLog") | ("data", "TableFile") | ("main", "ManifestFile") | ("main", "TempFile"));
+                if ok {
+                    files.push((p[1].to_string(), num(p[2])));
+                }
+            }
+            let mut o = opts();
+            o.db_path = "db".to_string();
+            let (mf, remaining) = v::remove_obsolete_scenario(o, num(a[1]), prev, num(a[3]), num(a[4]), num(a[5]), a[6] == "1", &files);
+            println!("manifest_number={}", mf);
+            println!("remaining={}", remaining.join(","));
+        }
         // live_files : files at levels 0, 3 and 6; does get_live_files report all of them?
         "live_files" => {
             let mk = |n: u64, k: u8| -> v::VFile { (n, 100, (vec![k], 9), (vec![k + 1], 8)) };
